@@ -216,8 +216,11 @@ def gen_case(prop, seed, tier):
     compressed = sw.random() < 0.12
     if compressed:
         # compressed contraction trees: ordinary networks only, no slicing / annealing post-processing
-        inputs, output, size_dict = netgen.gen_network(net_rng, n_min=5, n_max=10, max_inds=20, dims=(2, 3, 4), max_rank=4,
-                                                       space_cap=2 ** 60, feat={"out_edge": False})
+        while True:
+            inputs, output, size_dict = netgen.gen_network(net_rng, n_min=5, n_max=10, max_inds=24, dims=(2, 3, 4), max_rank=4,
+                                                           space_cap=2 ** 60, feat={"out_edge": False})
+            if netgen.is_connected(inputs) and all(len(t) > 0 for t in inputs):
+                break  # the compressed path finders are specified for connected ordinary networks
         methods = sw.sample(["sim-greedy-compressed", "sim-greedy-span"], sw.randint(1, 2))
         minimize = sw.choice(["peak-compressed", "size-compressed", "peak-compressed-4", "flops-compressed-8", "write-compressed-4"])
         post = {"reconf_opts": {"window_size": 4, "max_iterations": 3, "max_window_tries": 10}} if sw.random() < 0.3 else {}
@@ -657,7 +660,7 @@ def minimise(prop, case, v):
     while len(cur["methods"]) > 1:
         if not (attempt(lambda c: c["methods"].pop()) or attempt(lambda c: c["methods"].pop(0))):
             break
-    if cur["methods"] != ["sim-greedy"]:
+    if cur["methods"] != ["sim-greedy"] and not cur.get("compressed"):
         attempt(lambda c: c.update(methods=["sim-greedy"]))
     while cur["max_repeats"] > 1 and attempt(lambda c: c.update(max_repeats=max(1, c["max_repeats"] // 2))):
         pass
@@ -668,7 +671,7 @@ def minimise(prop, case, v):
         attempt(lambda c: c["pool"].update(mode="thread"))
         while cur["pool"]["workers"] > 1 and attempt(lambda c: c["pool"].update(workers=c["pool"]["workers"] - 1)):
             pass
-    if cur["minimize"] != "flops":
+    if cur["minimize"] != "flops" and not cur.get("compressed"):
         attempt(lambda c: c.update(minimize="flops"))
     budget[0] = 3
     r = run_case(prop, cur)
